@@ -69,7 +69,8 @@ SCENARIOS = {
     "deep": S("abc", {"a": "u", "b": "a", "c": "b"}, "abc", {"t1": [("stop", "a")], "t2": [("stop", "c"), ("actorof", "c")]}, thorough=True,
               asis={"ChildrenFirst", "ResolvesLiveOnly", "StopIsComplete"}),
     # C17
-    "sysstop2": S("abc", {"a": "u", "b": "a", "c": "u"}, "abc", {"t1": [("sysstop", "")], "t2": [("tell", "b"), ("stop", "b")], "t3": [("tellg", "g1")]}, grains=1, thorough=True),
+    "sysstop2": S("abc", {"a": "u", "b": "a", "c": "u"}, "abc", {"t1": [("sysstop", "")], "t2": [("tell", "b"), ("stop", "b")], "t3": [("tellg", "g1")]}, grains=1, thorough=True,
+                  asis={"ChildrenFirst", "SystemStopComplete"}),
     "sysstop": S("abc", {"a": "u", "b": "a", "c": "u"}, "abc", {"t1": [("sysstop", "")], "t2": [("tell", "b"), ("tellg", "g1"), ("tell", "c")]}, grains=2),
 }
 BY_PROP = {
@@ -153,11 +154,12 @@ EXPLAINS = {
     "a running actor is missing from the tree at quiescence": ["StaleTerminatedDeletesLiveNode", "OrphanChildOutsideTree",
                                                                "ChildAttachedToStoppingParent", "SpawnOverRegisteredName"],
     "a running actor's parent is gone at quiescence": ["ChildAttachedToStoppingParent", "OrphanChildOutsideTree"],
+    "an actor is still alive after ActorSystem.Stop returned": ["OverlappingStopSkipsChild"],
     "a stopped actor is still registered at quiescence": ["StopInAttachWatchGap"],
     "a stopped actor is still resolvable by name at quiescence": ["StopInAttachWatchGap"],
     "parent / children / watcher relations of the tree are inconsistent at quiescence": [],
 }
-FINDING_PROP = {"SpawnOverRegisteredName": {"C11", "C09"}, "ActorOfResolvesStopped": {"C09"}, "OverlappingStopSkipsChild": {"C09"},
+FINDING_PROP = {"SpawnOverRegisteredName": {"C11", "C09"}, "ActorOfResolvesStopped": {"C09"}, "OverlappingStopSkipsChild": {"C09", "C17"},
                 "ChildAttachedToStoppingParent": {"C09"}, "StaleTerminatedDeletesLiveNode": {"C09"}, "OrphanChildOutsideTree": {"C09"}, "StopInAttachWatchGap": {"C09"}}
 STOPOPS = ("stop", "pill", "restart", "sysstop")
 
